@@ -1,5 +1,5 @@
 """C05 - discovery listeners see a truthful, strictly alternating service history."""
-from .. import scen, stackprop
+from .. import conv, scen, stackprop
 
 CODES = {1: "listener notifications do not alternate offered/stopped", 2: "listener history differs from the specification (live offer / TTL / withdrawal)",
          3: "reboot: 'stopped' reported after 'offered' of the same message",
@@ -129,6 +129,30 @@ def directed_double_reboot(r):
     return dict(cfg=tuple(cfg), insts=[], draws=[0] * 4, events=sorted(events, key=lambda e: e[0]), end=t + 5 * T, rev=r.random() < 0.3, fuel=20000)
 
 
+def directed_same_host(r):
+    """Sources that share a HOST and differ in the port (and one on another host; two link-local ones that differ in the scope
+    id) hold offers with long or infinite TTLs; one of them reveals a reboot (alone, or re-offering in the same message):
+    only ITS offers are withdrawn, the others stay offered."""
+    T = scen.T
+    cfg = list(scen.timings(r))
+    cfg[11] = r.choice([0, 5 * scen.MS])
+    group = r.choice([[1, 101, 2], [1, 101, 2], [301, 302, 1]])
+    peers = {a: scen.Peer(a) for a in group}
+    events = [(0, (1, [5, [0, 0]]))] if r.random() < 0.5 else [(0, (1, [3, conv.s_service(scen.FILTERS[0]), [0, 0]]))]
+    events.append((0, (1, [13])))
+    t = T // 2
+    for a in r.sample(group, 3):
+        t += r.choice([1, T // 16])
+        svc = r.choice(scen.SERVICES[:2])
+        events.append((t, (0, a, r.random() < 0.3, peers[a].datagram([svc.create_offer_entry(r.choice([0xFFFFFF, 0xFFFFFF, 3]))], False))))
+    who = r.choice(group[:2])
+    t += r.choice([T // 8, T // 2])
+    peers[who].reboot()
+    es = [r.choice(scen.SERVICES[:2]).create_offer_entry(r.choice([3, 0xFFFFFF]))] if r.random() < 0.5 else []
+    events.append((t, (0, who, False, peers[who].datagram(es, False))))
+    return dict(cfg=tuple(cfg), insts=[], draws=[0] * 8, events=events, end=t + 5 * T, rev=r.random() < 0.3, fuel=20000)
+
+
 def run(ctx):
     r = ctx.rng
     quick = ctx.tier == "quick"
@@ -147,6 +171,9 @@ def run(ctx):
     if not quick:
         for k in range(3000):
             scs.append(static_discovery(r) if k % 2 == 0 else scen.discovery_scenario(r, small=True, length=r.randint(1, 5)))
+    import random
+    r2 = random.Random(ctx.seed * 7919 + 5)       # a stream of its own: the scenarios above stay what they were
+    scs += [directed_same_host(r2) for _ in range(30 if quick else 1000)]
     stackprop.run_scenarios(ctx, scs, 3005, CODES, known_codes={9: "F13", 18: "F18"}, kind_of=lambda sc: "static" if all(e[1][0] not in (4, 6) for t, e in sc["events"] if e[0] == 1) else "dynamic", what="discovery")
 
 
